@@ -236,6 +236,8 @@ def smt_rows(tier):
         return {"verdict": "unknown", "queries": 1, "solver_s": round(dt, 2), "detail": detail, "message": "solver answered " + r}
     w, _, dt2 = smtlib.check(pre + [lines == 3, Wd == 5], logic="QF_BVFP", timeout_s=100)
     if w != "sat":
+        if w != "unsat":
+            return {"verdict": "unknown", "message": "vacuity witness inconclusive (solver answered %s)" % w}
         return {"verdict": "error", "message": "vacuity witness failed"}
     return {"verdict": "confirmed", "queries": 2, "solver_s": round(dt + dt2, 2), "detail": detail}
 
